@@ -368,6 +368,7 @@ theorem WF_wstep {w : World} (op : WOp) (hop : OpWF w op) (h : w.WF) : (w.wstep 
     · rename_i hnone
       exact WF_append _ _ _ _ _ hnone h
   | fault n f c => exact WF_setDisk _ _ _ h
+  | measure n a => exact WF_of_copies_eq (w := w) rfl (Nat.le_refl _) h
 
 /-! ### storage effects and the disk frame of a step -/
 
@@ -495,6 +496,7 @@ theorem wstep_storage (w : World) (op : WOp) (e : Eff) (he : e ∈ (w.wstep op).
     simp only [wstep] at he
     split at he <;> simp at he
   | fault n f c => simp [wstep] at he
+  | measure n a => simp [wstep] at he
 
 theorem upsertHealthy_disk (w : World) (f n : Nat) : (w.upsertHealthy f n).disk = w.disk := by
   unfold upsertHealthy; split <;> rfl
@@ -579,6 +581,87 @@ theorem wstep_diskAt (w : World) (op : WOp) (hnf : ∀ n f c, op ≠ .fault n f 
     apply diskAt_congr
     simp only [wstep]
     split <;> rfl
+  | measure n' a => exact Or.inl rfl
+
+/-! ### frame of a measurement step: only `availKiB` of the measured node changes -/
+
+/-- what a measurement does to one node row -/
+def measRow (n : Nat) (a : Option Int) (x : WNode) : WNode := if x.id == n then { x with availKiB := a } else x
+
+theorem measRow_frame (n : Nat) (a : Option Int) (x : WNode) :
+    (measRow n a x).id = x.id ∧ (measRow n a x).group = x.group ∧ (measRow n a x).host = x.host ∧
+    (measRow n a x).active = x.active ∧ (measRow n a x).stype = x.stype ∧ (measRow n a x).minKiB = x.minKiB ∧
+    (measRow n a x).maxKiB = x.maxKiB ∧ (measRow n a x).hasRoute = x.hasRoute := by
+  unfold measRow; split <;> simp
+
+theorem wstep_measure_eq (w : World) (n : Nat) (a : Option Int) :
+    w.wstep (.measure n a) = ({ w with nodes := w.nodes.map (measRow n a) }, []) := rfl
+
+@[simp] theorem wstep_measure_effs (w : World) (n : Nat) (a : Option Int) : (w.wstep (.measure n a)).2 = [] := rfl
+@[simp] theorem wstep_measure_nodes (w : World) (n : Nat) (a : Option Int) :
+    (w.wstep (.measure n a)).1.nodes = w.nodes.map (measRow n a) := rfl
+@[simp] theorem wstep_measure_files (w : World) (n : Nat) (a : Option Int) : (w.wstep (.measure n a)).1.files = w.files := rfl
+@[simp] theorem wstep_measure_copies (w : World) (n : Nat) (a : Option Int) : (w.wstep (.measure n a)).1.copies = w.copies := rfl
+@[simp] theorem wstep_measure_reqs (w : World) (n : Nat) (a : Option Int) : (w.wstep (.measure n a)).1.reqs = w.reqs := rfl
+@[simp] theorem wstep_measure_edges (w : World) (n : Nat) (a : Option Int) : (w.wstep (.measure n a)).1.edges = w.edges := rfl
+@[simp] theorem wstep_measure_disk (w : World) (n : Nat) (a : Option Int) : (w.wstep (.measure n a)).1.disk = w.disk := rfl
+@[simp] theorem wstep_measure_reserved (w : World) (n : Nat) (a : Option Int) :
+    (w.wstep (.measure n a)).1.reserved = w.reserved := rfl
+@[simp] theorem wstep_measure_nextId (w : World) (n : Nat) (a : Option Int) : (w.wstep (.measure n a)).1.nextId = w.nextId := rfl
+
+theorem node?_measure (w : World) (n : Nat) (a : Option Int) (m : Nat) :
+    (w.wstep (.measure n a)).1.node? m = (w.node? m).map (measRow n a) := by
+  unfold node?
+  rw [wstep_measure_nodes, List.find?_map]
+  congr 1
+  apply find?_congr'
+  intro x _
+  simp only [Function.comp, (measRow_frame n a x).1]
+
+theorem isArchive_measure (w : World) (n : Nat) (a : Option Int) (m : Nat) :
+    (w.wstep (.measure n a)).1.isArchive m = w.isArchive m := by
+  unfold isArchive
+  rw [node?_measure]
+  cases w.node? m with
+  | none => rfl
+  | some x => simp only [Option.map_some, (measRow_frame n a x).2.2.2.2.1]
+
+theorem groupOfNode_measure (w : World) (n : Nat) (a : Option Int) (m : Nat) :
+    (w.wstep (.measure n a)).1.groupOfNode m = w.groupOfNode m := by
+  unfold groupOfNode
+  rw [node?_measure]
+  cases w.node? m with
+  | none => rfl
+  | some x => simp only [Option.map_some, (measRow_frame n a x).2.1]
+
+theorem copyAt_measure (w : World) (n : Nat) (a : Option Int) (f m : Nat) :
+    (w.wstep (.measure n a)).1.copyAt f m = w.copyAt f m := rfl
+
+theorem diskAt_measure (w : World) (n : Nat) (a : Option Int) (m f : Nat) :
+    (w.wstep (.measure n a)).1.diskAt m f = w.diskAt m f := rfl
+
+theorem filecopyState_measure (w : World) (n : Nat) (a : Option Int) (f m : Nat) :
+    (w.wstep (.measure n a)).1.filecopyState f m = w.filecopyState f m := rfl
+
+theorem archiveCount_measure (w : World) (n : Nat) (a : Option Int) (f : Nat) :
+    (w.wstep (.measure n a)).1.archiveCount f = w.archiveCount f := by
+  unfold archiveCount
+  rw [wstep_measure_copies]
+  congr 1
+  apply List.filter_congr
+  intro c _
+  rw [isArchive_measure]
+
+theorem groupState_measure (w : World) (n : Nat) (a : Option Int) (g f : Nat) :
+    (w.wstep (.measure n a)).1.groupState g f = w.groupState g f := by
+  unfold groupState
+  rw [wstep_measure_copies]
+  have : w.copies.filter (fun c => c.file == f && (w.wstep (.measure n a)).1.groupOfNode c.node == some g) =
+      w.copies.filter (fun c => c.file == f && w.groupOfNode c.node == some g) := by
+    apply List.filter_congr
+    intro c _
+    rw [groupOfNode_measure]
+  simp only [this]
 
 /-! ### unique copy ids (needed to follow one row through `applyPostAdd`) -/
 
